@@ -164,6 +164,24 @@ def r20_2(chk, sb, ld):
             okd = okd and d is not None and d.key() in ("pow(2, 32)", "libc.math.pow(2, 32)", "4294967296", "(bin Pow 2 32)")
         chk.ob("R20.2", SB, q, "each coordinate is that integer divided by 2^32, hence in [0, 1)", okd and bool(outs), fingerprint=f"{q}:scale",
                found=[str(e.value)[:80] for e in outs])
+    # the seeds are C 'unsigned int' (0 .. 2^32-1): the batch must carry them in a type that holds them and their successor
+    kb = ld.ev("quasirandom_kgf_batch")
+    ar = [e for e in kb.events if e.kind == "call" and call_name(e.value.as_atom() or ()) == "numpy.arange"]
+    dt = dict(ar[0].extra["kwargs"]).get("dtype").key() if ar and dict(ar[0].extra["kwargs"]).get("dtype") is not None else None
+    pt = {p: (kb.ctypes.get(p) or "") for p in kb.param_names}
+    unsigned = any("unsigned" in v for v in pt.values())
+    chk.ob("R20.2", LD, "quasirandom_kgf_batch", "the seed vector of the batch holds every unsigned-int seed and seed + 1 (int32 wraps at 2^31 - 1, where the "
+           "single-point generator still works)", bool(ar) and dt in ("numpy.int64", "numpy.uint64", "numpy.float64", None) or not unsigned,
+           fingerprint="seed-width", expected="dtype=np.int64 (or float64)", found=f"numpy.arange(..., dtype={dt}) for parameters {pt}")
+    # the table has a fixed number of rows: a dimension beyond it must be refused, not read past the end (boundscheck is off)
+    for q in ("quasirandom_sobol", "quasirandom_sobol_batch"):
+        ev = sb.ev(q)
+        dpar = "D"
+        guard = any(e.kind in ("assert", "raise", "test") and e.value is not None and dpar in {a[1] for a in find_atoms(e.value, lambda a: a[0] == "name")}
+                    and ("shape" in e.value.key() or "len(" in e.value.key() or "21201" in e.value.key()) for e in ev.events)
+        chk.ob("R20.2", SB, q, "the dimension is checked against the number of rows of the direction-number table before poly[j + 1] is read",
+               guard, fingerprint=f"{q}:dimension-bound", expected="if D > _SOBOL_DATA.shape[0] - 1: raise ValueError",
+               found="no test of D against the table size (poly[j + 1] with boundscheck off reads past the table for D > 21201)")
     for q in ("quasirandom_kgf", "quasirandom_kgf_batch"):
         ev = ld.ev(q)
         a = ev.returns[-1].value.as_atom()
